@@ -76,6 +76,8 @@ func drawC06(t *rapid.T, x *X) *Case {
 	if !c.Opts.Memoize && !c.Opts.Stats && !c.Opts.Debug {
 		c.Opts.Memoize = true
 	}
+	// a collector kept for a whole corpus: a sixth of the Statistics cases
+	c.Opts.WarmStats = c.Opts.Stats && gspec.U(t, 6, "warmstats") == 0
 	if gspec.U(t, 100, "longinput") == 0 && len(c.Input) > 0 && x.G.Spec.Profile != "leftrec" {
 		// (not for left-recursive grammars: growing a seed re-parses from the rule's start, which
 		// is quadratic in the length by design)
@@ -133,7 +135,7 @@ func lrMemoErrFinding(ref *refpeg.Result, plain, memo []string) bool {
 func checkC06(x *X, c *Case, strict bool) *Outcome {
 	g := x.G.Spec
 	base := *c
-	base.Opts.Memoize, base.Opts.Debug, base.Opts.Stats = false, false, false
+	base.Opts.Memoize, base.Opts.Debug, base.Opts.Stats, base.Opts.WarmStats = false, false, false, false
 	ro := refOpts(&base)
 	if len(c.Input) >= 3000 {
 		ro.StepBudget = 8000000
@@ -177,7 +179,15 @@ func checkC06(x *X, c *Case, strict bool) *Outcome {
 			o.Viol = viol(pk, c, "default_run", d, describeRef(ref), describeResp(r0))
 			return o
 		}
-		r1, ctx1 := runReal(x, pk, c, safetyBudget(ref))
+		safety := safetyBudget(ref)
+		if c.Opts.WarmStats && c.Opts.Stats && ref.Stats.ZeroWidthIters == 0 {
+			// a Statistics value that an earlier parse has used, and no MaxExpressions option at
+			// all (the harness's own safety budget left out: the reference has shown that the
+			// parse is finite): collecting statistics into a used value changes nothing
+			safety = 0
+			o.Tags = append(o.Tags, "warm_stats_no_budget")
+		}
+		r1, ctx1 := runReal(x, pk, c, safety)
 		o.Evals++
 		if r0.Panicked != r1.Panicked {
 			o.Viol = viol(pk, c, "options_change_result", "panic behaviour differs", describeResp(r0), describeResp(r1))
@@ -209,7 +219,7 @@ func checkC06(x *X, c *Case, strict bool) *Outcome {
 			// work bound and "evaluated at most once"
 			// (the bound holds under every combination of the options: Debug stays as drawn)
 			mc := *c
-			mc.Opts.Stats = true
+			mc.Opts.Stats, mc.Opts.WarmStats = true, false // (the count of this parse alone)
 			rm, ctxm := runReal(x, pk, &mc, safetyBudget(ref))
 			rs, _ := runReal(x, pk, &statsOnly, safetyBudget(ref))
 			o.Evals += 2
